@@ -10,6 +10,11 @@ Everything is deterministic and built FRESH from a small descriptor by `build_co
           CobaContext.learning_info are functions of everything it was taught so far (number of learn calls and
           the rewards seen), so any state carried from one evaluation into another changes the rows.  One of the
           learning_info keys is written by this learner only, so a stale entry of another evaluation stays visible.
+  Lrn03F  the same learner with a clean-up hook `finish()` (coba calls it on the copy it made of a learner that is listed
+          in several triples).  Like a learner that releases a buffer it allocates on its first successful predict, its
+          finish SUCCEEDS after a complete evaluation (it writes one line 'C03-FINISH<...>' to the coba logger, which is how
+          the call is observed, also from worker processes) and RAISES Fault03('C03-FINISH-BROKEN<...>') when the object
+          was never successfully asked to predict or one of its own predict / learn calls raised.
   Seq03   coba's real SequentialCB (subclassed only to carry a tag / the fault hooks).
   Scr03   a scripted generator evaluator: predicts on every interaction, teaches the learner on the even ones.
 
@@ -21,6 +26,7 @@ triple `on` and raises Fault03(fault_text(f)):
   predict    k                           at the k-th predict call that learner l receives for a context of environment e
   learn      k                           at the k-th learn   call that learner l receives for a context of environment e
   evaluate                               when evaluator v is asked to evaluate (environment e, learner l)
+  lrn.finish                             (Lrn03F only) when finish() is called on a learner-l object that was used on environment e
 """
 from coba.context import CobaContext
 from coba.evaluators import SequentialCB
@@ -28,7 +34,7 @@ from coba.primitives import Learner, Evaluator, Environment, SimulatedInteractio
 
 N_ITEMS = {0: 3, 1: 2}
 ACTIONS = {0: ['a', 'b', 'c'], 1: ['x', 'y']}
-FAULT_KINDS = ('env.params', 'env.read', 'lrn.params', 'predict', 'learn', 'val.params', 'evaluate')
+FAULT_KINDS = ('env.params', 'env.read', 'lrn.params', 'predict', 'learn', 'val.params', 'evaluate', 'lrn.finish')
 
 
 class Fault03(Exception):
@@ -45,6 +51,7 @@ def fault_text(f):
     if at == 'learn': return f'C03-FAULT<learn L{l} on E{e} call {k}>'
     if at == 'val.params': return f'C03-FAULT<val.params V{v}>'
     if at == 'evaluate': return f'C03-FAULT<evaluate V{v} on E{e} L{l}>'
+    if at == 'lrn.finish': return f'C03-FAULT<finish L{l} after E{e}>'
     raise ValueError(at)
 
 
@@ -75,6 +82,8 @@ class Lrn03(Learner):
         self.l = l
         self.hist = []          # every (context, action, reward) it was taught
         self.calls = {}         # (kind, env) -> number of calls received
+        self.broken = False     # one of its own calls raised
+        self.finished = 0       # finish() calls received (Lrn03F)
         self._params_fault = [fault_text(f) for f in faults if f['at'] == 'lrn.params' and f['on'][1] == l]
         self._call_faults = {(f['at'], f['on'][0], f['k']): fault_text(f) for f in faults
                              if f['at'] in ('predict', 'learn') and f['on'][1] == l}
@@ -85,14 +94,16 @@ class Lrn03(Learner):
         return {'tag': f'L{self.l}'}
 
     def untouched(self):
-        return not self.hist and not self.calls
+        return not self.hist and not self.calls and not self.finished
 
     def _call(self, kind, context):
         e = context[0]
         k = self.calls.get((kind, e), 0)
         self.calls[(kind, e)] = k + 1
         msg = self._call_faults.get((kind, e, k))
-        if msg: raise Fault03(msg)
+        if msg:
+            self.broken = True
+            raise Fault03(msg)
 
     def predict(self, context, actions):
         self._call('predict', context)
@@ -108,6 +119,33 @@ class Lrn03(Learner):
         info['sum_taught'] = sum(int(r) for _, _, r in self.hist)
         self._call('learn', context)
         self.hist.append((tuple(context), action, reward))
+
+
+FINISH_MARK = 'C03-FINISH<'
+FINISH_BROKEN = 'C03-FINISH-BROKEN<'
+
+
+class Lrn03F(Lrn03):
+    """Lrn03 with a clean-up hook (see the module docstring)."""
+    def __init__(self, l, faults=()):
+        Lrn03.__init__(self, l, faults)
+        self._buffer = None     # allocated by the first successful predict, released by finish
+        self._finish_faults = {f['on'][0]: fault_text(f) for f in faults if f['at'] == 'lrn.finish' and f['on'][1] == l}
+
+    def predict(self, context, actions):
+        out = Lrn03.predict(self, context, actions)
+        if self._buffer is None: self._buffer = []
+        return out
+
+    def finish(self):
+        self.finished += 1
+        envs = sorted({e for _, e in self.calls})
+        CobaContext.logger.log(f"{FINISH_MARK}L{self.l} used on {['E%d' % e for e in envs]} taught {len(self.hist)} call {self.finished}>")
+        if self._buffer is None or self.broken:
+            raise Fault03(f'{FINISH_BROKEN}L{self.l}: finish() of a learner whose evaluation was cut short>')
+        for e in envs:
+            if e in self._finish_faults: raise Fault03(self._finish_faults[e])
+        self._buffer = None
 
 
 def env_index(environment):
@@ -167,11 +205,12 @@ def n_calls(kind, e, v):
     return (n + 1) // 2
 
 
-def build_components(faults=(), chunk=None):
+def build_components(faults=(), chunk=None, fin=False):
     """Fresh (envs, learners, evaluators) with the faults armed.
     chunk: None (bare environments) | 'per-env' (each environment piped into its own Chunk filter, like
     Environments.chunk(cache=False)) | 'shared' (both environments piped into ONE Chunk object, so that every task
-    that has an environment lands in the same chunk of ChunkTasks / the same ProcessTasks.filter call)."""
+    that has an environment lands in the same chunk of ChunkTasks / the same ProcessTasks.filter call).
+    fin: the learners are Lrn03F (with a finish() hook) instead of Lrn03."""
     from coba.pipes import Pipes
     from coba.environments import Chunk
     faults = list(faults)
@@ -181,4 +220,5 @@ def build_components(faults=(), chunk=None):
         c = Chunk()
         envs = [Pipes.join(e, c) for e in envs]
     elif chunk is not None: raise ValueError(chunk)
-    return (envs, [Lrn03(0, faults), Lrn03(1, faults)], [Seq03(0, faults), Scr03(1, faults)])
+    lrn = Lrn03F if fin else Lrn03
+    return (envs, [lrn(0, faults), lrn(1, faults)], [Seq03(0, faults), Scr03(1, faults)])
